@@ -48,6 +48,7 @@ def run(ctx):
                        "capacity 1..1000); distinct = recorded runs")
     ctx.tlc_mc("AppScan", "MC_AppScan_R3W2", workers=8, timeout=600)
     ctx.tlc_mc("AppScan", "MC_AppScan_nodelay", workers=4, timeout=600, expect_violation="Exact")
+    ctx.tlc_mc("AppScan", "MC_AppScan_nodelay_errs", workers=8, timeout=600)        # ... but every failure is logged, whatever the delay
     if not quick:
         ctx.tlc_mc("AppScan", "MC_AppScan_R4W2", workers=16, timeout=3000, xmx="16g")
         ctx.tlc_mc("AppScan", "MC_AppScan_R3W3", workers=16, timeout=3000, xmx="16g")
